@@ -62,11 +62,12 @@ def tad_pipe():
         m = repo.load("tad", overrides=dict(PROXY_BUILTINS, max=sym_max, min=sym_min), imports={"reverse_dfs": std.reverse_dfs},
                       alias="tad_pipe")
         m.logging = LoggingStub()
+        with_math(m)
         _pipe["tad"] = m
     return _pipe["tad"]
 
 
-BUILD = dict(p1_final=G.p1_final, init_final=G.init_final, big_rewards=G.big_rewards, dup_actions=G.dup_actions, decimals=G.decimals,
+BUILD = dict(dead_branch_rewards=G.dead_branch_rewards, corridor=G.corridor, p1_final=G.p1_final, init_final=G.init_final, big_rewards=G.big_rewards, dup_actions=G.dup_actions, decimals=G.decimals,
              tie_small=G.tie_small, all_live_orphan=G.all_live_orphan, p2_shared=G.p2_shared, paid_final=G.paid_final, orphans=G.orphans, slow_rew=G.slow_rew, regroup=G.regroup, rew_ties=G.rew_ties, fig55=G.fig55, dead=G.dead_family, cyc=G.cyc, cyc2=G.cyc2, ec=G.ec, finals=G.finals, p2choice=G.p2choice,
              lex=G.lex, ties=G.ties, ties_p2=G.ties_p2, nosol=G.nosol, unreach=G.unreach, slow_chain=G.slow_chain)
 
@@ -169,7 +170,7 @@ def _stopping_instances(tier):
         inst.append(("unreach", [w]))
     for o in (0, 1, 2):
         inst.append(("orphans", [o]))
-    inst += [("p1_final", [P1]), ("p1_final", [P2]), ("init_final", []), ("dup_actions", []), ("decimals", []), ("tie_small", []),
+    inst += [("dead_branch_rewards", []), ("p1_final", [P1]), ("p1_final", [P2]), ("init_final", []), ("dup_actions", []), ("decimals", []), ("tie_small", []),
              ("all_live_orphan", []), ("p2_shared", ["a"]), ("p2_shared", ["b"])]
     for order in ([(0, 1, 2), (2, 1, 0), (1, 0, 2)] if tier == "quick" else list(itertools.permutations(range(3)))):
         inst.append(("big_rewards", [P2, list(order)]))
@@ -422,6 +423,9 @@ def _conc_jobs(tier, seed):
             jobs.append(dict(game="rew_ties", args=[owner, r], _cost=1))
     for p in (0.9997, 0.99):
         jobs.append(dict(game="slow_rew", args=[p], _cost=5))
+    for n in (60,):
+        for rev in (False, True):
+            jobs.append(dict(game="corridor", args=[n, rev], _cost=5))
     return jobs
 
 
@@ -438,8 +442,8 @@ def pipe_final_concrete(sp, game, args):
                 transition_list=[list(x) for x in g.tl], final_states=list(g.finals))
     T = G.max_steps(g.players, g.tl)
     tol = max(TOL, 2 * THR * float(T) * max(1, max(desc["rewards"]))) if T is not None else TOL
-    if game == "slow_rew":
-        desc["_budget"] = 10 ** 6      # needs ~1/(1-p) * 15 sweeps
+    if game in ("slow_rew", "corridor"):
+        desc["_budget"] = 10 ** 6      # slow_rew needs ~1/(1-p) * 15 sweeps, a forward-numbered corridor one sweep per tile
     for prune in (True, False):
         kind, res = solve(sp, desc, prune)
         if kind != "ok":
